@@ -16,15 +16,18 @@ TECHNIQUE = ("Coq theorems (induction over the slot list for each of the three e
 LEVEL_TEXT = ("Partial. Unbounded proof: for every slot list (entry present at an offset, or absent), any start index and any "
               "following bytes, the dense 32-bit, the 16-bit and the sparse offset arrays are read back as exactly the "
               "existing entries with their own resource ids; a plain and a compact entry record at any position of any file "
-              "are read back with their key, data type and data. Not proved: the walk over table header, string pools, "
-              "package header and type specs, complex entries, and the listings (packages, locales, types, key-to-id, "
-              "resolved values) - they are compared with the generated table description on every run; reference resolution "
-              "is C29, locale qualifiers are C30.")
+              "are read back with their key, data type and data; the string pools are read back exactly (theorem of C26); "
+              "the walk over the table (table header, main pool, several packages - also of one name -, package header "
+              "and its two pools, type specs, types, library and unknown chunks, the package-count check) is modelled "
+              "(coq/Axml/ArscTableModel.v), compared with the code on every run and proved to end on every input (C35), "
+              "but that it delivers exactly the encoded packages and type chunks is not a theorem. Not proved either: "
+              "complex entries and the listings (locales, types, key-to-id, resolved values) - they are compared with the "
+              "generated table description on every run; reference resolution is C29, locale qualifiers are C30.")
 LEVEL_NOTE = ("Trusted: Coq kernel; coq/Axml/ArscTypeModel.v as a rendering of the type-chunk branch of ARSCParser.__init__ "
               "(the offset array is read at chunk start + header size, where ARSCResTableConfig leaves the stream on "
               "well-formed files) and of ARSCResTableEntry/ARSCComplex/ARSCResStringPoolRef; the harness tools/props/c28.py "
               "(its own chunk walk) and tools/writers/arscwriter.py.")
-TRUSTED = ["hand-written model coq/Axml/ArscTypeModel.v (+ coq/Axml/PoolModel.v readers)",
+TRUSTED = ["hand-written models coq/Axml/ArscTypeModel.v, coq/Axml/ArscTableModel.v (+ coq/Axml/PoolModel.v readers)",
            "correspondence harness tools/props/c28.py and the independent writer tools/writers/arscwriter.py (dense, offset16, sparse chunks)"]
 
 COQ_HEADER = "Require Import V.Axml.PoolModel V.Axml.ArscTypeModel."
@@ -89,6 +92,10 @@ def rand_value(rng, t, keys, me):
 
 
 def build(case):
+    return main_table(case).build()
+
+
+def main_table(case):
     from tools.writers.arscwriter import Table, Config, Simple, Complex, Compact
     t = Table(package="com.ex", package_id=PKG, utf8=case["utf8"])
     for ty in TYPES:
@@ -124,7 +131,7 @@ def build(case):
                 val = simple(v)
             t.add_entry(ty, i, "k_%s_%d" % (ty, i), cfg, val)
             t.modes[(ty, cfg.key())] = case["modes"].get((ty, lg), "dense")
-    return t.build()
+    return t
 
 
 def type_chunks(raw):
@@ -272,6 +279,131 @@ def stats(cases, results):
     return d
 
 
+# ---- the walk over the table: packages, their chunks, odd chunks in between ----------------------------------------------
+def chunk(ty, payload, hs=8):
+    return struct.pack("<HHI", ty, hs, 8 + len(payload)) + payload
+
+
+def gen_walk(rng, tier, ctx):
+    """case = {"main": a case of gen, "others": [{"id", "name", "ints": {index: n}, "mode", "lib": bool}], "top": [odd top-level chunk kinds],
+               "declared": number of packages in the table header or None}"""
+    base = gen(rng, tier, ctx)
+    cases = []
+    for k, c in enumerate(base[:60 if tier == "thorough" else 14]):
+        others = []
+        for j in range(rng.choice((0, 1, 1, 2))):
+            others.append({"id": rng.choice((0x7E, 0x01, 0x10 + j, 0x7F)), "name": rng.choice(("com.lib", "org.x%d" % j, "com.ex")),
+                           "ints": {i: rng.randrange(1000) for i in rng.sample(range(6), rng.randint(1, 4))}, "mode": rng.choice(MODES), "lib": rng.random() < 0.4})
+        top = [rng.choice(("unknown", "second_pool", "library")) for _ in range(rng.choice((0, 0, 1, 2)))]
+        cases.append({"main": c, "others": others, "top": top, "declared": None if rng.random() < 0.8 else rng.choice((0, 1, 5))})
+    # more packages than the header announces: the third distinct name is refused
+    cases.append({"main": base[0], "others": [{"id": 1, "name": "a.b", "ints": {0: 1}, "mode": "dense", "lib": False}, {"id": 2, "name": "c.d", "ints": {0: 2}, "mode": "dense", "lib": False},
+                                              {"id": 3, "name": "e.f", "ints": {0: 3}, "mode": "dense", "lib": False}], "top": [], "declared": 1})
+    return cases
+
+
+def build_walk(case):
+    from tools.writers.arscwriter import Table, Config, Simple, build_tables, string_pool
+    tables = [main_table(case["main"])]
+    for o in case["others"]:
+        t = Table(package=o["name"], package_id=o["id"], utf8=False)
+        t.add_type("integer")
+        cfg = Config(language="")
+        for i, n in sorted(o["ints"].items()):
+            t.add_entry("integer", i, "n%d" % i, cfg, Simple(INT_DEC, n))
+        t.modes[("integer", cfg.key())] = o["mode"]
+        if o["lib"]:
+            t.extra_chunks = chunk(0x0203, struct.pack("<I", 0) , hs=12)
+        tables.append(t)
+    top = b""
+    for kind in case["top"]:
+        top += {"unknown": chunk(0x0300, b"\x01\x02\x03\x04\x05\x06\x07\x08"), "second_pool": string_pool(["ignored"]), "library": chunk(0x0203, struct.pack("<I", 0), hs=12)}[kind]
+    return build_tables(tables, top_extra=top, declared_packages=case["declared"])
+
+
+def impl_walk(case):
+    from androguard.core.axml import ARSCParser, ARSCResType, ARSCResTableEntry, ARSCResTablePackage
+    raw = build_walk(case)
+    try:
+        a = ARSCParser(raw)
+    except Exception as e:
+        return {"error": type(e).__name__, "raw": raw}
+    out = []
+    for name, items in a.packages.items():
+        pid, chunks, cur = None, [], None
+        for it in items:
+            if isinstance(it, ARSCResTablePackage):
+                pid = it.id if pid is None else pid
+            elif isinstance(it, ARSCResType):
+                cur = [it.id, it.flags, it.entryCount, []]
+                chunks.append(cur)
+            elif isinstance(it, ARSCResTableEntry):
+                if it.is_complex():
+                    pay = [2, it.item.id_parent, it.item.count, [[n, v.get_data_type(), v.get_data()] for n, v in it.item.items]]
+                elif it.is_compact():
+                    pay = [1, it.key, it.data, it.datatype]
+                else:
+                    pay = [0, it.key.get_data_type(), it.key.get_data()]
+                cur[3].append([it.mResId, it.size, it.flags, it.index, pay])
+        out.append([pid, [ord(ch) for ch in name], chunks])
+    return {"packages": out, "raw": raw}
+
+
+def canon_walk(res):
+    if "error" in res:
+        return Err("ResParserError" if res["error"] == "ResParserError" else "Other")
+    return res["packages"]
+
+
+def oracle_walk(case, res):
+    if isinstance(res, Err):
+        return "harness failed: %s %s" % (res.name, res.msg[:200])
+    names = ["com.ex"] + [o["name"] for o in case["others"]]
+    distinct = list(dict.fromkeys(names))
+    declared = len(names) if case["declared"] is None else case["declared"]
+    # the third, fourth ... distinct name is refused when the header announces fewer packages (len(packages) > packageCount)
+    refused = any(len(list(dict.fromkeys(names[:k]))) > declared for k in range(len(names)))
+    if "error" in res:
+        return None if refused and res["error"] == "ResParserError" else "the table is not parsed: %s" % res["error"]
+    if refused:
+        return "a table with more packages than announced (%d) is accepted" % declared
+    got = res["packages"]
+    if ["".join(map(chr, p[1])) for p in got] != distinct:
+        return "packages listed as %s, the table holds %s" % (["".join(map(chr, p[1])) for p in got], distinct)
+    ids = [PKG] + [o["id"] for o in case["others"]]
+    for p, nm in zip(got, distinct):
+        if p[0] != ids[names.index(nm)]:
+            return "package %s has id %s, stored %s" % (nm, p[0], ids[names.index(nm)])
+    # every int entry of the further packages is found under its resource id, with its value
+    for o in case["others"]:
+        chunks = [c for p in got if "".join(map(chr, p[1])) == o["name"] for c in p[2]]
+        found = {e[0]: e[4] for c in chunks for e in c[3]}
+        for i, n in o["ints"].items():
+            rid = ((o["id"] & 0xFF) << 24) | (1 << 16) | i
+            if rid not in found or found[rid][-1] != n:
+                if names.count(o["name"]) > 1 or [x["id"] for x in case["others"] if x["name"] == o["name"]].count(o["id"]) != 1 or o["name"] == "com.ex":
+                    continue          # two packages of one name share a list; ids of a later one overwrite: compared with the model only
+                return "package %s: resource 0x%08x = %d is not listed (%s)" % (o["name"], rid, n, found.get(rid))
+    return None
+
+
+def stats_walk(cases, results):
+    d = {"tables": len(cases), "packages": 0, "same_name_packages": 0, "odd_top_chunks": 0, "library_chunks": 0, "refused": 0, "type_chunks": 0}
+    for c, r in zip(cases, results):
+        names = ["com.ex"] + [o["name"] for o in c["others"]]
+        d["packages"] += len(names)
+        d["same_name_packages"] += len(names) - len(set(names))
+        d["odd_top_chunks"] += len(c["top"])
+        d["library_chunks"] += sum(1 for o in c["others"] if o["lib"])
+        if not isinstance(r, Err):
+            d["refused"] += "error" in r
+            d["type_chunks"] += sum(len(p[2]) for p in r.get("packages", []))
+    return d
+
+
 STREAMS = [{"name": "tables", "gen": gen, "impl": impl, "canon": canon, "coq_header": COQ_HEADER, "coq_type": "list Z * (Z * list Z)",
             "coq_input": lambda c: None, "coq_input_r": coq_input, "coq_obs": "obs_types", "model_vo": "Axml/ArscTypeModel.vo", "pinned": False,
-            "oracle": oracle, "stats": stats, "shard": 6, "case_timeout": 60}]
+            "oracle": oracle, "stats": stats, "shard": 6, "case_timeout": 60},
+           {"name": "table-walk", "gen": gen_walk, "impl": impl_walk, "canon": canon_walk, "coq_header": "Require Import V.Axml.ArscTableModel.", "coq_type": "list Z",
+            "coq_input": lambda c: None, "coq_input_r": lambda c, r: zlist(list(r["raw"])), "coq_obs": "obs_table", "model_vo": "Axml/ArscTableModel.vo", "pinned": False,
+            "oracle": oracle_walk, "stats": stats_walk, "shard": 4, "case_timeout": 60}]
